@@ -243,7 +243,7 @@ class DenseEncoding(Encoding):
         return self._data[indices]
 
     def gather_nd(self, indices):
-        return self._data[tuple(indices.T)]
+        return self._data[tuple(np.asanyarray(indices).T)]
 
     def mask(self, mask):
         return self._data[mask if isinstance(mask, np.ndarray) else mask.dense]
@@ -375,7 +375,7 @@ class SparseEncoding(Encoding):
         return np.column_stack(np.unravel_index(flat_indices, self.shape))
 
     def gather_nd(self, indices):
-        mat = self._csc[self._flat_indices(indices)].todense()
+        mat = self._csc[self._flat_indices(np.asanyarray(indices))].todense()
         # mat is a np matrix, which stays rank 2 after squeeze
         # np.asarray changes this to a standard rank 2 array.
         return np.asarray(mat).squeeze(axis=-1)
@@ -573,7 +573,7 @@ class RunLengthEncoding(Encoding):
         return np.array(tuple(runlength.rle_mask(self._data, mask)), dtype=self._dtype)
 
     def get_value(self, index):
-        for value in self.sorted_gather((index,)):
+        for value in self.sorted_gather(np.reshape(index, (-1,))):
             return np.asanyarray(value, dtype=self._dtype)
 
     def copy(self):
@@ -733,7 +733,7 @@ class LazyIndexMap(Encoding):
         return self._data.sparse_values
 
     def gather_nd(self, indices):
-        return self._data.gather_nd(self._to_base_indices(indices))
+        return self._data.gather_nd(self._to_base_indices(np.asanyarray(indices)))
 
     def get_value(self, index):
         return self.gather_nd(np.reshape(index, (1, -1)))[0]
@@ -938,7 +938,8 @@ class FlippedEncoding(LazyIndexMap):
             )
 
     def _to_base_indices(self, indices):
-        indices = indices.copy()
+        # a signed copy: unsigned indices can not be mirrored in place
+        indices = np.array(indices, dtype=np.int64)
         shape = self.shape
         for a in self._axes:
             indices[:, a] *= -1
